@@ -324,6 +324,8 @@ def run(ctx):
                 edits += [('dup', path, posn), ('del', path, posn)]
                 if posn + 1 < len(children):
                     edits.append(('swap', path, posn))
+                if ld is not None and any(ft == children[posn][0] and fd[0] == 'uint' for ft, fd in ld[2]):
+                    edits += [('width', path, posn)] * 3
         for kind, path, posn in rng.sample(edits, min(len(edits), ctx.n(8, 40))):
             tr2 = copy.deepcopy(tr)
             lvl = tr2
@@ -336,6 +338,8 @@ def run(ctx):
                 lvl.insert(posn, copy.deepcopy(lvl[posn]))
             elif kind == 'del':
                 del lvl[posn]
+            elif kind == 'width':
+                lvl[posn][1] = G.rand_bytes(rng, rng.choice([0, 3, 5, 6, 7, 9, 16]))
             else:
                 lvl[posn], lvl[posn + 1] = lvl[posn + 1], lvl[posn]
             check_wire(ctx, M, dec, G.tlv(t0, TG.ser_tree(tr2)), 'struct.' + kind)
